@@ -121,7 +121,7 @@ for _n, _c in [('time_ts_plus_dur', 't + d is the chrono result or an error when
                     claim=_c, vars=None)
 
 ALL_UNITS = ['value_arith', 'value_cmp', 'value_coll', 'macros', 'preresolved', 'interp', 'interp_vm_g0', 'interp_vm_g1', 'interp_vm_g2', 'interp_vm_g3',
-             'interp_vm_g4', 'interp_vm_g5', 'interp_vm_g6', 'interp_vm_g7', 'builtins', 'wiring', 'parser', 'json', 'compprog', 'parser_expr', 'parser_unary']
+             'interp_vm_g4', 'interp_vm_g5', 'interp_vm_g6', 'interp_vm_g7', 'builtins', 'wiring', 'parser', 'json', 'compprog', 'parser_expr', 'parser_unary', 'parser_match']
 
 PROPS = {
     'C02': dict(
@@ -192,7 +192,7 @@ PROPS = {
         assumptions=['ScopedCounter RAII (the increment is undone on scope exit)'],
     ),
     'C10': dict(
-        units=['preresolved', 'interp', 'interp_vm_g0', 'compprog', 'parser_expr', 'parser_unary'],
+        units=['preresolved', 'interp', 'interp_vm_g0', 'compprog', 'parser_expr', 'parser_unary', 'parser_match'],
         not_covered=['that every block the compiler emits satisfies resolve()\'s precondition (unique, defined, forward labels) and is stack-balanced: parser contracts (not reached)',
                      'PreResolvedByteCode::extend / FromIterator (generic IntoIterator loops)'],
         assumptions=['HashMap<u32,usize> semantics (vstd)', 'locations[&label] rewritten to *locations.get(&label).unwrap() (std defines Index that way)'],
@@ -222,7 +222,7 @@ PROPS = {
         assumptions=['sort: the comparator is ord; that slice::sort_by with a total order returns an ordered permutation is std\'s contract (not under contract here)'],
     ),
     'C05': dict(
-        units=['value_cmp', 'value_arith', 'interp_vm_g0', 'interp_vm_g1', 'parser', 'parser_expr'],
+        units=['value_cmp', 'value_arith', 'interp_vm_g0', 'interp_vm_g1', 'parser', 'parser_expr', 'parser_match'],
         not_covered=[],
         assumptions=[],
     ),
